@@ -73,47 +73,72 @@ def find(pattern, text, what):
 NUM = r"([0-9]+(?:\.[0-9]+)?)"
 
 
+def strip_comments(text):
+    """Remove // and /* */ comments (string literals of this function body contain neither)."""
+    text = re.sub(r"/\*.*?\*/", "", text, flags=re.S)
+    return re.sub(r"//[^\n]*", "", text)
+
+
+def squeeze(text):
+    """Comment- and whitespace-insensitive form of a piece of source: the patterns below are written without blanks."""
+    return re.sub(r"\s+", "", strip_comments(text))
+
+
+def const_int(expr, what):
+    """Value of a simple constant expression: integer literals (with _ separators / type suffixes), + - * / << >> ( )."""
+    e = strip_comments(expr).strip()
+    e = re.sub(r"(?<=[0-9])_(?=[0-9])", "", e)
+    e = re.sub(r"(?<=[0-9])(?:usize|u64|u32|u16|u8|isize|i64|i32)\b", "", e)
+    if not re.fullmatch(r"[0-9xXa-fA-F+\-*/()<>\s]+", e):
+        raise TranslateError("%s is not a simple constant expression: %s" % (what, expr.strip()))
+    try:
+        v = eval(e.replace("/", "//"), {"__builtins__": {}}, {})
+    except Exception as exc:  # noqa: BLE001
+        raise TranslateError("cannot evaluate %s (%s): %s" % (what, expr.strip(), exc))
+    return int(v)
+
+
 def generate(repo, gen_dir):
     with open(os.path.join(repo, "src", "image.rs"), encoding="utf-8") as f:
         text = f.read()
-    m = find(r"impl ImageHandler for SixelImageHandler \{(.*?)\n    fn erase\(", text, "SixelImageHandler::draw")
-    body = m.group(1)
+    m = find(r"impl\s+ImageHandler\s+for\s+SixelImageHandler\s*\{(.*?)\n    fn\s+erase\s*\(", text, "SixelImageHandler::draw")
+    body = squeeze(m.group(1))          # no comments, no whitespace: a reformat of draw does not matter
     pre = []
     for ch in ("red", "green", "blue"):
-        m = find(r"let %s = \(\(%s as f32 / %s\)\.round\(\) \* %s\) as u8;" % (ch, ch, NUM, NUM), body, "pre-scaling of " + ch)
+        m = find(r"let%s=\(\(%sasf32/%s\)\.round\(\)\*%s\)asu8;" % (ch, ch, NUM, NUM), body, "pre-scaling of " + ch)
         pre.append((m.group(1), m.group(2)))
     scale = []
     for ch in ("red", "green", "blue"):
-        m = find(r"let %s = \(%s as f32 / %s\)\.round\(\) as u8;" % (ch, ch, NUM), body, "palette scaling of " + ch)
+        m = find(r"let%s=\(%sasf32/%s\)\.round\(\)asu8;" % (ch, ch, NUM), body, "palette scaling of " + ch)
         scale.append(m.group(1))
     if len(set(pre)) != 1 or len(set(scale)) != 1:
         raise TranslateError("the three channels are no longer scaled alike")
     a, b = pre[0]
     c = scale[0]
-    m = find(r"dimg\.quantize\((\d+), (true|false), self\.bg\)", body, "quantize call")
-    psize, dither = int(m.group(1)), m.group(2)
-    m = find(r"let height = \(img\.height\(\) / (\d+)\) \* (\d+);", body, "height truncation")
-    if m.group(1) != m.group(2):
+    m = find(r"dimg\.quantize\(([0-9_]+),(true|false),self\.bg\)", body, "quantize call")
+    psize, dither = const_int(m.group(1), "palette size"), m.group(2)
+    m = find(r"letheight=\(img\.height\(\)/([0-9_]+)\)\*([0-9_]+);", body, "height truncation")
+    if const_int(m.group(1), "band") != const_int(m.group(2), "band"):
         raise TranslateError("height truncation uses two different constants")
-    band = int(m.group(1))
-    m = find(r"\.step_by\((\d+)\)", body, "band step")
-    if int(m.group(1)) != band:
+    band = const_int(m.group(1), "band")
+    m = find(r"\.step_by\(([0-9_]+)\)", body, "band step")
+    if const_int(m.group(1), "band step") != band:
         raise TranslateError("band step differs from the height truncation")
-    m = find(r"let mut sixel = \[0usize; (\d+)\];", body, "sixel array")
-    if int(m.group(1)) != band:
+    m = find(r"letmutsixel=\[0usize;([0-9_]+)\];", body, "sixel array")
+    if const_int(m.group(1), "sixel array") != band:
         raise TranslateError("sixel array length differs from the band height")
-    shifts = re.findall(r"if shift > (\d+) \{", body)
-    if len(shifts) != 2 or shifts[0] != "0":
+    shifts = re.findall(r"ifshift>([0-9_]+)\{", body)
+    if len(shifts) != 2 or const_int(shifts[0], "shift") != 0:
         raise TranslateError("skip logic changed shape (expected `if shift > 0 { if shift > N {`)")
-    shift_min = int(shifts[1])
-    m = find(r"if repeats > (\d+) \{", body, "repeat threshold")
-    rep_min = int(m.group(1))
-    m = find(r"sixel_lines\s*\.entry\(\*color\)\s*\.or_default\(\)\s*\.push\(\(col, sixel_code \+ (\d+)\)\);", body, "sixel offset")
-    offset = int(m.group(1))
+    shift_min = const_int(shifts[1], "skip threshold")
+    m = find(r"ifrepeats>([0-9_]+)\{", body, "repeat threshold")
+    rep_min = const_int(m.group(1), "repeat threshold")
+    m = find(r"\.push\(\(col,sixel_code\+([0-9_]+)\)\);", body, "sixel offset")
+    offset = const_int(m.group(1), "sixel offset")
 
-    m = find(r"const IMAGE_CACHE_SIZE: usize = (\d+);", text, "IMAGE_CACHE_SIZE")
-    cache_limit = int(m.group(1))
-    if len(re.findall(r"while self\.size > IMAGE_CACHE_SIZE \{", body)) != 1:
+    m = find(r"const\s+IMAGE_CACHE_SIZE\s*:\s*usize\s*=([^;]+);", text, "IMAGE_CACHE_SIZE")
+    cache_limit = const_int(m.group(1), "IMAGE_CACHE_SIZE")
+    if len(re.findall(r"whileself\.size>IMAGE_CACHE_SIZE\{", body)) != 1:
         raise TranslateError("cache eviction loop changed shape")
 
     A, B, C = lit(a), lit(b), lit(c)
